@@ -207,6 +207,8 @@ type policyCall struct {
 	Duration time.Duration `json:"duration"`
 	Err      string        `json:"err,omitempty"`
 	Real     time.Duration `json:"real"` // what the generic policy computed
+	Status     int    `json:"status,omitempty"`
+	RetryAfter string `json:"retry_after,omitempty"`
 }
 
 // recorder holds the event log of one call and the knobs of the script.
@@ -230,8 +232,9 @@ type recorder struct {
 	// bodyFor returns the expected body of a target request (repository phase)
 	bodyFor func(req *http.Request) (want []byte, judged bool)
 
-	maxRetry int
-	minWait  time.Duration
+	expBackoff bool // the policy's Backoff is retry.ExponentialBackoff
+	maxRetry   int
+	minWait    time.Duration
 	maxWait  time.Duration
 
 	// cancellation
@@ -295,6 +298,9 @@ func (p *recPolicy) Retry(attempt int, resp *http.Response, err error) (time.Dur
 	rec := p.rec
 	rec.mu.Lock()
 	pc := policyCall{Send: rec.send, Attempt: attempt, Duration: d, Real: d}
+	if resp != nil {
+		pc.Status, pc.RetryAfter = resp.StatusCode, resp.Header.Get("Retry-After")
+	}
 	if perr != nil {
 		pc.Err = perr.Error()
 	}
